@@ -1,11 +1,12 @@
 """C18 — the sampler returns an admissible token, deterministically under a seed."""
+import os
 import re
 
 from vlib import core
 from vlib.registry import COMMON_NOTE
 
 # 0 = the pinned upstream `sample` (finding F18 present), 1 = with proposed_fixes/C18-F18.patch applied
-FIX = 0
+FIX = int(os.environ.get("VERIF_C18_FIX", "0"))
 
 REGISTRATION = {
     "engine": "lean-sampler",
